@@ -180,6 +180,15 @@ func probeText(a txtArg) (string, string) {
 		g1, e1 = uu.DefaultParser(string(in), uu.Rule(a.Rule))
 		g2, e2 = uu.DefaultParser(cp, uu.Rule(a.Rule))
 	}
+	// named string / byte-slice input types behave like the plain ones
+	type namedS string
+	type namedB []byte
+	if gn, en := uu.DefaultParser(namedS(in), uu.Rule(a.Rule)); gn != g1 || (en == nil) != (e1 == nil) {
+		return "named_type_differs", fmt.Sprintf("DefaultParser[named string](%q, rule=%d) = %v, %v; plain string gives %v, %v", in, a.Rule, gn, en, g1, e1)
+	}
+	if gn, en := uu.DefaultParser(namedB(append([]byte(nil), in...)), uu.Rule(a.Rule)); gn != g2 || (en == nil) != (e2 == nil) {
+		return "named_type_differs", fmt.Sprintf("DefaultParser[named []byte](%q, rule=%d) = %v, %v; plain []byte gives %v, %v", in, a.Rule, gn, en, g2, e2)
+	}
 	rs := []struct {
 		g uu.ID
 		e error
@@ -282,6 +291,22 @@ func main() {
 			})
 		})
 		r.Sample("id", idArg{0x0123456789ab4def, 0x8edcba9876543210})
+		r.Phase("IDs whose halves are related (lo = -hi, ^hi, hi, hi+1, hi-1, 0, all ones; hi from 40 values): every output path and parse back", "complete for the listed relations", func() {
+			var xs []uint64
+			for i := 0; i < 64; i += 3 {
+				xs = append(xs, 1<<uint(i), ^uint64(0)>>uint(i))
+			}
+			xs = append(xs, 0, 1, 0x8000000000000000, 0x0123456789abcdef, 0xfedcba9876543210)
+			r.Parallel(int64(len(xs)), 1, func(w *mc.W, i int64) {
+				x := xs[i]
+				for _, lo := range []uint64{-x, ^x, x, x + 1, x - 1, 0, ^uint64(0), x << 1, x >> 1} {
+					w.Point()
+					w.NonTrivial()
+					pid.Do(w, idArg{x, lo})
+					pid.Do(w, idArg{lo, x})
+				}
+			})
+		})
 		one := func(w *mc.W, s []byte) {
 			for rule := 0; rule < 4; rule++ {
 				cls, _, _ := oracle.UUIDParse(s, rule&1 != 0, rule&2 != 0)
